@@ -465,6 +465,13 @@ class SIter(Sym):
             raise Unsupported("length of a symbolic collection without a tracked size")
         return SInt(self.count)
 
+    def _vc_bool(self):
+        v = bv("v!nb", self.sort)
+        return SBool(z3.Exists([v], self.pred(v)))
+
+    def __bool__(self):
+        return bool(self._vc_bool())
+
     def to_set(self, name="coll"):
         """only for collections whose elements are the bound variable itself"""
         v = bv("v!t", self.sort)
